@@ -743,7 +743,10 @@ fn run_case(out: &mut Out, si: usize, sdl: &str, ts: &graphql_type_system::Schem
                 d["reading"] = json!("every position");
                 out.descr.push(d);
             }
-            out.distinct.insert(format!("{}\u{0}{}", sdl, text));
+            // non-trivial: more than a bare list of fields
+            if text.contains('(') || text.contains("...") || text.contains('@') || text.contains('$') {
+                out.distinct.insert(format!("{}\u{0}{}", sdl, text));
+            }
             Some(errs.len())
         }
     }
@@ -773,6 +776,10 @@ fn corpus() -> Vec<(&'static str, &'static str, Vec<&'static str>, &'static str)
         (S1, "query Q($a: Int, $a: C, $b: Nope) @once @once @tag { a(x: 1) { a(x: null, zz: 1, i: {a: \"s\", zz: 2}, q: {opt: 1}, e: Z) id { x } self } nope ...Missing ... on Nope { x } ... on E { x } }\nquery Q { __typename }\nquery { a }\nfragment F on Nope { x }\nfragment F on E { x }\nfragment G on A { ...G ...H }\nfragment H on A { ...G }\n", vec![], "many errors"),
         (S1, "subscription S { s t }\nsubscription T { s ...X ... { s } }\nfragment X on Subscription { t ...X }\nmutation M { x }\n", vec![], "subscription root fields, missing root type, recursion while counting"),
         (S1, "query Q($l: [Int!]!, $i: Int, $e: E = A, $in: In) { a { a(x: $i, ids: $l, e: $e, i: $in, q: {must: $i}) b: a(i: {l: [$in, {a: $i}]}, ids: [$i]) } }\n", vec![], "variable usages"),
+        (S1, "query Q($l: [ID!], $f: Float = 1, $b: Boolean!, $in: In!) @once { i { id ... on J { j ...FJ } ... on A @include(if: $b) { a(x: 2, f: $f, ids: $l, e: A, i: {a: 1, l: [{b: 2}, $in]}, j: {any: [1]}) } ...FI } u { __typename ... on A { id } ... on I { id } ... on V { ... on B { b } } } k: n(x: 1) @skip(if: false) @tag(name: \"t\") @tag(name: \"u\") }\nfragment FJ on J @tag(name: \"f\") { self { id } }\nfragment FI on B { b ...FJ }\n", vec![], "a valid document using most features"),
+        // spec-valid documents the implementation rejects (C04 known findings)
+        (S1, "query Q($v: Int) { a { a(x: $v) } }\n", vec!["c04:variable-at-position-with-default-rejected"], "nullable variable at a non-null argument that has a default value"),
+        (S1, "subscription S { s s }\n", vec!["c04:subscription-same-root-field-twice-rejected"], "the same root field twice is one response key"),
     ]
 }
 
@@ -808,13 +815,20 @@ fn main() {
         let term = ast_coq::tsdoc(&tsdoc);
         let si = match out.schemas.iter().position(|t| t == &term) { Some(i) => i, None => { out.schemas.push(term); out.schemas.len() - 1 } };
         let ts = to_type_system(&tsdoc);
-        if c04 && !classes.is_empty() { continue; }
-        run_case(&mut out, si, sdl, &ts, text, json!({"stream": "corpus", "note": note, "classes": classes}));
+        let c04_classes: Vec<&str> = classes.iter().filter(|c| c.starts_with("c04:")).map(|c| &c[4..]).collect();
+        let c03_classes: Vec<&str> = classes.iter().filter(|c| !c.starts_with("c04:")).cloned().collect();
+        if c04 {
+            // documents that exhibit a C03 blind spot are not spec-valid: not a C04 case
+            if !c03_classes.is_empty() { continue; }
+            run_case(&mut out, si, sdl, &ts, text, json!({"stream": "corpus", "note": note, "classes": [], "c04_classes": c04_classes}));
+        } else {
+            run_case(&mut out, si, sdl, &ts, text, json!({"stream": "corpus", "note": note, "classes": c03_classes}));
+        }
         n_corpus += 1;
     }
 
     // 2. generated
-    let n_schemas = match (c04, thorough) { (false, false) => 60, (false, true) => 600, (true, false) => 60, (true, true) => 600 };
+    let n_schemas = match (c04, thorough) { (false, false) => 45, (false, true) => 200, (true, false) => 50, (true, true) => 200 };
     let (n_valid, n_mut) = match (c04, thorough) { (false, false) => (4, 26), (false, true) => (6, 70), (true, false) => (24, 0), (true, true) => (60, 0) };
     let mut schema_rejected = 0;
     let mut relabel = 0usize;
@@ -901,7 +915,7 @@ fn main() {
     write_meta(&args.out, &json!({
         "evaluations": n,
         "distinct_nontrivial": out.distinct.len(),
-        "rule": "distinct (schema text, document text) pairs; every case runs the real parser, the real check_operation_document and the Coq model on a generated schema (5-12 types, interfaces implementing interfaces, unions, input objects, custom directives) and a document with 1-3 operations, fragments, inline fragments, variables and directives; a case is non-trivial in that the document has at least one typed selection below the root",
+        "rule": "distinct (schema text, document text) pairs whose document contains at least one argument list, fragment (spread or inline), directive or variable (i.e. is more than a bare list of fields); every case runs the real parser, the real check_operation_document and the Coq model on a generated schema (5-12 types, interfaces implementing interfaces, unions, input objects, custom directives) and a document with 1-3 operations",
         "samples": samples,
         "distribution": {
             "mode": if c04 { "c04 (valid documents only)" } else { "c03 (valid + fault-injected documents)" },
